@@ -257,6 +257,38 @@ func Normalize(s string) string {
 				i = oc + 1
 				continue
 			}
+			// alias as ((S1) UNION ALL (S2) ...): the unionAll wrapper of the profile planners prints every member in
+			// parentheses; the Select object of Sql.v prints `S1 UNION ALL S2` inside one pair
+			if oc > 0 {
+				var members []string
+				pos := outer + 1
+				for pos < oc && s[pos] == '(' {
+					c := matchParen(s, pos)
+					if c < 0 || !isSelectText(s[pos+1:c]) {
+						members = nil
+						break
+					}
+					members = append(members, s[pos+1:c])
+					pos = c + 1
+					if strings.HasPrefix(s[pos:], " UNION ALL ") {
+						pos += len(" UNION ALL ")
+						continue
+					}
+					break
+				}
+				if len(members) >= 2 && pos == oc {
+					b.WriteString(" as (")
+					for k, m := range members {
+						if k > 0 {
+							b.WriteString(" UNION ALL ")
+						}
+						b.WriteString(Normalize(m))
+					}
+					b.WriteString(")")
+					i = oc + 1
+					continue
+				}
+			}
 		}
 		b.WriteByte(s[i])
 		i++
